@@ -87,7 +87,10 @@ def relayout(rng, tokens, mode):
             t = ABBREV[t]
         if i > 0:
             prev = tokens[i - 1]
-            tight_ok = (mode in ('tight', 'all')) and not is_time_pattern(prev) and \
+            # a time pattern needs white space before it; after it a comment or a closing bracket
+            # may follow directly
+            tight_ok = (mode in ('tight', 'all')) and \
+                not (is_time_pattern(prev) and t[0] not in '#]') and \
                 not is_time_pattern(t) and not prev.startswith('"') and not t.startswith('"') and \
                 ((t[0] in PUNCT) or (prev[-1] in PUNCT)) and \
                 not (prev[-1] in '<>=!' and t[0] in '=') and not (prev in '<>' and t[0] in '=')
@@ -102,7 +105,10 @@ def relayout(rng, tokens, mode):
                 elif r < 0.8:
                     sep = '\n' + ' ' * rng.randrange(0, 5)
                 elif r < 0.9:
-                    sep = ' # ' + rng.choice(['comment', 'set all', '"x', '{ [ (', 'end end', 'H:S']) + '\n'
+                    # a comment, glued to the token before it as often as not (a quoted string
+                    # swallows nothing: `#` after the closing quote starts the comment)
+                    sep = rng.choice([' # ', '#', ' #', '# ']) + \
+                        rng.choice(['comment', 'set all', '"x', '{ [ (', 'end end', 'H:S']) + '\n'
                 else:
                     sep = '\r\n'
             else:
@@ -281,6 +287,31 @@ def main():
                 break
         else:
             chk.nontrivial_case('id:' + ident)
+    # ---- 2b. square brackets round a routine call in every statement position
+    G = 'define g with a begin return a end '
+    pairs = [(G + 'define f g 1 f', G + 'define f [g 1] f'), (G + 'if {1>0} g 1', G + 'if {1>0} [g 1]'),
+             (G + 'repeat 2 g 1', G + 'repeat 2 [g 1]'), (G + 'if {1>0} g 1 else g 2', G + 'if {1>0} [g 1] else [g 2]'),
+             (G + 'g [g 1]', G + '[g [g 1]]'), (G + 'repeat all as x g 1', G + 'repeat all as x [g 1]'),
+             (G + 'define h with z g z h 2', G + 'define h with z [g z] h 2'),
+             (G + 'set "Candle" begin g 1 stage row 0 end', G + 'set "Candle" begin [g 1] stage row 0 end'),
+             (G + 'define n begin g 1 end n', G + 'define n begin [g 1] end [n]'),
+             ('define q begin print 1 end q', 'define q begin print 1 end [q]'),
+             ('define q begin print 1 end define r q r', 'define q begin print 1 end define r [q] [r]'),
+             (G + 'repeat while {1 > 2} g 1', G + 'repeat while {1 > 2} [g 1]'),
+             (G + 'define h begin g 1 g 2 end h', G + 'define h begin [g 1] [g 2] end [h]')]
+    for plain, bracketed in pairs:
+        a, b = compile_program(plain), compile_program(bracketed)
+        chk.count()
+        na = ('accept', peephole(a[1])) if a[0] == 'accept' else a
+        nb = ('accept', peephole(b[1])) if b[0] == 'accept' else b
+        if a[0] != 'accept' or na != nb:
+            chk.violation('brackets-change-program',
+                          'brackets round a routine call change the result: `{}` gives {}, `{}` gives {}'.format(
+                              plain[-40:], str(na)[:60], bracketed[-40:], str(nb)[:80]),
+                          {'plain': plain, 'bracketed': bracketed})
+        else:
+            chk.nontrivial_case('br:' + bracketed)
+        lex_texts.append(bracketed)
     # ---- 3. a quoted string may contain anything but a double quote or a line break
     chars = [chr(c) for c in range(32, 127) if chr(c) != '"'] + ['\t', 'é', 'Ω', '日', '\x7f', '\xa0']
     strings = [''.join(rng.choice(chars) for _ in range(rng.randint(1, 10)))
@@ -288,9 +319,14 @@ def main():
     strings += [c for c in chars] + ['#', ' # x', '{', '}', '[', ']', '(', '-', '+', '%', '12:30',
                                      'hue', 'end', 'a\\', '\\', 'a\\b', '\\\\', "it's", '  ', '-5',
                                      '{0}', 'begin end']
+    # what a string says must not matter: the names of a routine, a macro and a variable of the
+    # script itself, of built-in routines, keywords and register names, as string contents
+    strings += ['rtn', 'mac', 'vr', 'v', 'm', 'round', 'cycle', 'random', 'sqrt'] + sorted(DOC_KEYWORDS)[:80] + \
+        sorted(DOC_REGISTERS)
     for sv in strings:
         stats['strings'] += 1
-        script = 'assign v "{0}"\nprint v\ndefine m "{0}"\nprint m\nprint "{0}"\n'.format(sv)
+        script = ('define rtn with p begin return p end\ndefine mac 5\nassign vr 6\n'
+                  'assign v "{0}"\nprint v\ndefine m "{0}"\nprint m\nprint "{0}"\n').format(sv)
         res = runimpl.run_script(script, [])
         chk.count()
         outs = [e[1] for e in res.events if e[0] == 'O'] if res.compiled else None
